@@ -35,11 +35,12 @@ MEMBERS = {
              ['"dir\\"'], ["'dir\\'"], ['dir\\'], ['"a\\\\"'], ['"C:\\tmp\\"'], ['"a\\b"'], ['"{}"'], ['{mdt}'], ["'a(b'"], ['":)"'], ['日本'], ["'é x'"],
              # spellings a path- or key-normalising reader would rewrite: the value must be kept exactly as written
              ['a//b'], ['a/./b'], ['dir/'], ['dir/.'], ['./x'], ['../x'], ['/abs//x/'], ["'logs//scan.out'"], ['"/srv//lists/./files/"'], ['x/i'], ['ci-x'], ['A.TXT'], ['x.']],
-    'cmp32': [['0'], ['5'], ['+5'], ['-5'], ['007'], [str(U32 - 1)], ['+' + str(U32 - 1)], ['-0'], ['00000000000000000001']],
-    'cmp64': [['0'], ['5'], ['+5'], ['-5'], [str(U32)], [str(U64 - 1)], ['+' + str(U64 - 1)]],
-    'u32': [['0'], ['4'], ['16'], [str(U32 - 1)], ['0008']],
-    'size': [['5'], ['5c'], ['5w'], ['5b'], ['5k'], ['5M'], ['5G'], ['5T'], ['+5k'], ['-5M'], ['0'], ['+0c'], [str(U64 - 1)], ['1000000T']],
-    'time': [['5'], ['5s'], ['5m'], ['5h'], ['5d'], ['+5'], ['-5d'], ['0'], ['+0s'], [str(U64 - 1) + 'd']],
+    'cmp32': [['0'], ['5'], ['+5'], ['-5'], ['007'], [str(U32 - 1)], ['+' + str(U32 - 1)], ['-0'], ['00000000000000000001'],
+              ['0' * 20 + '7'], ['+' + '0' * 30 + '42'], ['-' + '0' * 63 + '1'], ['0' * 54 + str(U32 - 1)], ['0' * 40]],
+    'cmp64': [['0'], ['5'], ['+5'], ['-5'], [str(U32)], [str(U64 - 1)], ['+' + str(U64 - 1)], ['0' * 21 + '7'], ['0' * 44 + str(U64 - 1)]],
+    'u32': [['0'], ['4'], ['16'], [str(U32 - 1)], ['0008'], ['0' * 20 + '7'], ['0' * 33 + '16']],
+    'size': [['0' * 20 + '7k'], ['-' + '0' * 25 + '7'], ['+' + '0' * 44 + '1G'], ['5'], ['5c'], ['5w'], ['5b'], ['5k'], ['5M'], ['5G'], ['5T'], ['+5k'], ['-5M'], ['0'], ['+0c'], [str(U64 - 1)], ['1000000T']],
+    'time': [['0' * 20 + '7'], ['-' + '0' * 31 + '7d'], ['5'], ['5s'], ['5m'], ['5h'], ['5d'], ['+5'], ['-5d'], ['0'], ['+0s'], [str(U64 - 1) + 'd']],
     'types': [['f'], ['d'], ['f,d'], ['b,c,p,l,s'], ['f,f'], ['l'], ['s,b']] + [[','.join(c)] for n in (3, 4) for c in __import__('itertools').product('fdl', repeat=n)],
     'perm': [['644'], ['0644'], ['7777'], ['000'], ['-644'], ['/222'], ['u+x'], ['-u+x'], ['/u+x'], ['a=r'], ['ug=rw'],
              ['u=rwx,g=rx,o=r'], ["'u+r'"], ['"g+w"'], ['a+rwx'], ['o=x,o=w'], ['u+r,g+r,o+r'], ['-a-x'], ['00644'], ['/o-w']],
@@ -289,6 +290,28 @@ def gen_numeric(tier, rnd):
                     text = op.join('%s %s%d' % (kw, sign, v) for v in vs)
                     lines.append('C %s %s' % (hx(text), hx('/dev/x')))
                     lines.append('C %s %s' % (hx('( ' + text + ' ) -print'), hx('/dev/x')))
+    # PAIRS of -size tests whose count and unit multiplier spell the same digits when written one after the other
+    # (a table of rendered constants keyed by such a concatenation would hand one test the other's constant)
+    mults = {'c': 1, 'w': 2, 'b': 512, 'k': 1024, 'M': 2 ** 20, 'G': 2 ** 30, 'T': 2 ** 40, '': 512}
+    pairs = []
+    for u1, m1 in mults.items():
+        for c1 in list(range(1, 40)) + [71, 100, 351, 512]:
+            digits = str(c1) + str(m1)
+            for u2, m2 in mults.items():
+                if digits.endswith(str(m2)) and len(digits) > len(str(m2)):
+                    c2 = int(digits[:-len(str(m2))])
+                    if (c2, m2) != (c1, m1) and c2 > 0:
+                        pairs.append(('%d%s' % (c1, u1), '%d%s' % (c2, u2), c1 * m1, c2 * m2))
+    def size_nums(c, u):
+        m = mults[u]
+        return ([] if m == 1 else [m]) + [c * m]
+    for a, b, va, vb in pairs[:400]:
+        ca, ua = int(a.rstrip('cwbkMGT')), a.lstrip('0123456789')
+        cb, ub = int(b.rstrip('cwbkMGT')), b.lstrip('0123456789')
+        for text, nums in [('-size %s -o -size %s' % (a, b), size_nums(ca, ua) + size_nums(cb, ub)),
+                           ('-size +%s -size -%s' % (b, a), size_nums(cb, ub) + size_nums(ca, ua)),
+                           ('( -size %s -name a ) -o ! -size -%s' % (a, b), size_nums(ca, ua) + size_nums(cb, ub))]:
+            lines.append('C %s %s #kw=%s #args=%s #ctx=sizepair #nums=%s' % (hx(text), hx('/dev/x'), hx('-size'), hx(b), ','.join(str(x) for x in nums)))
     # every letter (and some punctuation) as a would-be unit suffix, with small and huge counts:
     # a suffix is either a documented unit (exact product) or the argument is rejected
     import string
@@ -401,6 +424,13 @@ def gen_format(tier, rnd):
     for a in ESCAPES + DIRECTIVES:
         for b in ESCAPES + DIRECTIVES:
             lines.append(prim_request('P', '-printf', ["'" + a + b + "'"], 'alone'))
+    # every braced directive with something between its name and the closing brace, or around the braces
+    for name in ['fid', 'projid', 'mirror-count', 'stripe-count', 'stripe-size', 'xattr:user']:
+        for junk in [':', ':x', ':%p', ': %p %s', ' ', '}', ':}', '.', ':k', '::', '=1', ',fid']:
+            for pre, post in [('', ''), ('a', 'b'), ('%p ', '\\n')]:
+                lines.append(prim_request('P', '-printf', ["'" + pre + '%{' + name + junk + '}' + post + "'"], 'alone'))
+        for variant in ['%{ ' + name + '}', '%{' + name.upper() + '}', '%{{' + name + '}}', '%{' + name, '%' + name + '}', '%{' + name + '}}']:
+            lines.append(prim_request('P', '-printf', ["'" + variant + "'"], 'alone'))
     # names of every length around the thresholds a length limit could sit at
     for n in [1, 8, 31, 32, 63, 64, 127, 128, 254, 255, 256, 257, 300, 511, 512, 1000, 4096]:
         for name in ['a' * n, ('userABC' * n)[:n]]:
@@ -489,6 +519,10 @@ def gen_errors(tier, rnd):
                 # end of input: missing argument
                 text = ' '.join(pre + [kw])
                 lines.append('P %s #kind=%s #kw=%s #word=%s' % (hx(text), k, hx(kw), hx('')))
+                # ... or the keyword is directly followed by a closing parenthesis (glued, spaced, nested)
+                if kw not in OPTIONS:
+                    for shape in ['( %s)', '(%s)', '( %s )', '( ( %s) )', '! ( %s)']:
+                        lines.append('P %s #kind=%s #kw=%s #word=%s' % (hx(shape % text), k, hx(kw), hx('')))
                 if kind in ('wordword', 'wordformat'):
                     # first argument present, second missing: at end of input, before a trailing blank, before ')' (glued or not)
                     for first in ['a', 'user.a', "'o ut'", '"x y"']:
